@@ -53,7 +53,14 @@ pub fn gen_radicand(rng: &mut Rng, p: u64) -> BigDecimal {
         6 => { // many more digits than 2(p+5)
             let l = (2 * (p as usize + 5) + 1 + rng.below(300) as usize).min(2000);
             dec(BigInt::from(gen_int_len(rng, l).magnitude().clone()), scale) }
-        7 => dec(pow10(rng.below(400)) * BigInt::from(rng.range(1, 9)), scale),
+        7 => { // s(s+1) and s(s+2) with s = head * 10^k or head|5000..0 : inexact roots whose discarded digits are all zero / an exact half
+            let hl = 1 + rng.below(p.min(30) + 1) as usize;
+            let head = BigInt::from(gen_int_len(rng, hl).magnitude().clone());
+            let k = rng.below(70);
+            let s = if rng.chance(1, 2) { &head * pow10(k) } else { (&head * BigInt::from(10) + BigInt::from(5)) * pow10(k) };
+            let v = &s * (&s + BigInt::from(rng.range(1, 2)));
+            dec(v, (scale & !1) + rng.range(0, 1)) }
+        8 => dec(pow10(rng.below(400)) * BigInt::from(rng.range(1, 9)), scale),
         _ => { let ml = if rng.chance(1, 10) { 2000 } else { 60 }; dec(BigInt::from(gen_int(rng, ml).magnitude().clone()), scale) }
     }
 }
